@@ -108,6 +108,43 @@ impl World {
     }
 }
 
+fn block_on<F: std::future::Future>(f: F) -> F::Output {
+    let mut f = Box::pin(f);
+    let waker = std::task::Waker::noop();
+    let mut cx = std::task::Context::from_waker(&waker);
+    loop {
+        if let std::task::Poll::Ready(v) = f.as_mut().poll(&mut cx) {
+            return v;
+        }
+    }
+}
+
+/// consensus serialisation of a transaction of (about) the requested size: the size is steered by the
+/// length of the single output script; returns the exact bytes
+fn valid_tx_bytes(n: usize) -> Vec<u8> {
+    use bitcoin::consensus::Encodable;
+    let mut script_len = n.saturating_sub(70);
+    loop {
+        let tx = bitcoin::Transaction {
+            version: bitcoin::transaction::Version(1),
+            lock_time: bitcoin::absolute::LockTime::from_consensus(0),
+            input: vec![bitcoin::TxIn {
+                previous_output: bitcoin::OutPoint::null(),
+                script_sig: bitcoin::ScriptBuf::new(),
+                sequence: bitcoin::Sequence(0xffffffff),
+                witness: bitcoin::Witness::new(),
+            }],
+            output: vec![bitcoin::TxOut { value: bitcoin::Amount::from_sat(1), script_pubkey: bitcoin::ScriptBuf::from_bytes(vec![0x6a; script_len]) }],
+        };
+        let mut buf = vec![];
+        tx.consensus_encode(&mut buf).unwrap();
+        if buf.len() >= n || script_len > n + 10 {
+            return buf;
+        }
+        script_len += n - buf.len();
+    }
+}
+
 fn block_id_of(w: &World, hash: &[u8]) -> Value {
     for (id, b) in w.blocks.iter() {
         if b.block_hash().to_vec() == hash {
@@ -255,6 +292,82 @@ fn run_op(w: &mut World, op: &Value) -> Value {
                 .iter()
                 .map(|t| unstable_blocks::testnet_unstable_max_depth_difference(n, *t as u32).get())
                 .collect::<Vec<_>>())
+        }
+        "cycles" => {
+            use ic_btc_canister::runtime::verif_hooks as vh;
+            let g = |k: &str| op["fees"][k].as_str().map(|x| x.parse::<u128>().unwrap()).unwrap_or(0);
+            let fees = ic_btc_interface::Fees {
+                get_utxos_base: g("get_utxos_base"),
+                get_utxos_cycles_per_ten_instructions: g("get_utxos_cycles_per_ten_instructions"),
+                get_utxos_maximum: g("get_utxos_maximum"),
+                get_current_fee_percentiles: g("get_current_fee_percentiles"),
+                get_current_fee_percentiles_maximum: g("get_current_fee_percentiles_maximum"),
+                get_balance: g("get_balance"),
+                get_balance_maximum: g("get_balance_maximum"),
+                send_transaction_base: g("send_transaction_base"),
+                send_transaction_per_byte: g("send_transaction_per_byte"),
+                get_block_headers_base: g("get_block_headers_base"),
+                get_block_headers_cycles_per_ten_instructions: g("get_block_headers_cycles_per_ten_instructions"),
+                get_block_headers_maximum: g("get_block_headers_maximum"),
+            };
+            with_state_mut(|s| s.fees = fees);
+            vh::set_cycles_available(op["avail"].as_str().map(|x| x.parse::<u128>().unwrap()));
+            vh::reset_cycles_balance();
+            vh::set_performance_counter(op["ins"].as_u64().unwrap_or(0));
+            let bad = op["inner"].as_str() == Some("err");
+            let addr = if bad { "notanaddress".to_string() } else { w.addr_string(7) };
+            let ep = op["endpoint"].as_str().unwrap_or("");
+            let net = req_net(w.network);
+            let r = catch_unwind(AssertUnwindSafe(|| match ep {
+                "get_utxos" => ic_btc_canister::get_utxos(GetUtxosRequest { address: addr.clone(), network: net, filter: None }).is_ok(),
+                "get_utxos_query" => ic_btc_canister::get_utxos_query(GetUtxosRequest { address: addr.clone(), network: net, filter: None }).is_ok(),
+                "get_balance" => ic_btc_canister::get_balance(GetBalanceRequest { address: addr.clone(), network: net, min_confirmations: None }).is_ok(),
+                "get_balance_query" => ic_btc_canister::get_balance_query(GetBalanceRequest { address: addr.clone(), network: net, min_confirmations: None }).is_ok(),
+                "get_block_headers" => ic_btc_canister::get_block_headers(GetBlockHeadersRequest {
+                    start_height: if bad { 1_000_000 } else { 0 }, end_height: None, network: net }).is_ok(),
+                "get_current_fee_percentiles" => {
+                    ic_btc_canister::get_current_fee_percentiles(ic_btc_interface::GetCurrentFeePercentilesRequest { network: net });
+                    true
+                }
+                "send_transaction" => {
+                    let n = op["len"].as_u64().unwrap_or(0) as usize;
+                    let tx = if bad { vec![0xffu8; n] } else { valid_tx_bytes(n) };
+                    let fut = ic_btc_canister::send_transaction(ic_btc_interface::SendTransactionRequest { network: net, transaction: tx });
+                    block_on(fut).is_ok()
+                }
+                _ => false,
+            }));
+            let accepted = vh::cycles_balance();
+            vh::set_cycles_available(None);
+            json!({"outcome": match r { Ok(true) => "ok", Ok(false) => "err", Err(_) => "trap" }, "accepted": accepted.to_string()})
+        }
+        "gate" => {
+            let on = |b: bool| if b { Flag::Enabled } else { Flag::Disabled };
+            with_state_mut(|s| {
+                s.api_access = on(op["access"].as_bool().unwrap_or(true));
+                s.disable_api_if_not_fully_synced = on(op["sync_flag"].as_bool().unwrap_or(false));
+            });
+            let net = match op["request_net"].as_str().unwrap_or("regtest") {
+                "Mainnet" => NetworkInRequest::Mainnet,
+                "mainnet" => NetworkInRequest::mainnet,
+                "Testnet" => NetworkInRequest::Testnet,
+                "testnet" => NetworkInRequest::testnet,
+                "Regtest" => NetworkInRequest::Regtest,
+                _ => NetworkInRequest::regtest,
+            };
+            let addr = w.addr_string(7);
+            let ep = op["endpoint"].as_str().unwrap_or("");
+            let r = catch_unwind(AssertUnwindSafe(|| match ep {
+                "get_utxos" => { let _ = ic_btc_canister::get_utxos(GetUtxosRequest { address: addr.clone(), network: net, filter: None }); }
+                "get_utxos_query" => { let _ = ic_btc_canister::get_utxos_query(GetUtxosRequest { address: addr.clone(), network: net, filter: None }); }
+                "get_balance" => { let _ = ic_btc_canister::get_balance(GetBalanceRequest { address: addr.clone(), network: net, min_confirmations: None }); }
+                "get_balance_query" => { let _ = ic_btc_canister::get_balance_query(GetBalanceRequest { address: addr.clone(), network: net, min_confirmations: None }); }
+                "get_block_headers" => { let _ = ic_btc_canister::get_block_headers(GetBlockHeadersRequest { start_height: 0, end_height: None, network: net }); }
+                "get_current_fee_percentiles" => { let _ = ic_btc_canister::get_current_fee_percentiles(ic_btc_interface::GetCurrentFeePercentilesRequest { network: net }); }
+                "send_transaction" => { let _ = block_on(ic_btc_canister::send_transaction(ic_btc_interface::SendTransactionRequest { network: net, transaction: valid_tx_bytes(80) })); }
+                _ => {}
+            }));
+            json!(if r.is_ok() { "answered" } else { "refused" })
         }
         "tree" => {
             let hashes = with_state(|s| unstable_blocks::get_block_hashes(&s.unstable_blocks));
